@@ -1,5 +1,6 @@
 import Driver.Util
 import MlModel.Model.Sched
+import MlModel.Model.MergeMulti
 import Std.Data.HashSet
 /-!
 JSON handler of the `Sched` model (C06 / C16).
@@ -256,6 +257,18 @@ def handle (j : Json) : Except String Json := do
       | .error e => Json.mkObj [("err", Driver.errJson e)]
     return Json.mkObj [("transform", show_ (trMergeStates (· + ·) 0 states strict)),
       ("chained", show_ (chMergeStates (· + ·) 0 states strict))]
+  | "merge_multi" =>
+    -- `ChainedRunner.merge_states` of a chain with `stages` aggregating stages over a one-shot stream;
+    -- a state = one integer component per stage, merge = +
+    let rows ← (← Driver.getArr j "states").toList.mapM fun r => do
+      let a ← r.getArr?
+      a.toList.mapM (·.getInt?)
+    let k ← Driver.getNat j "stages"
+    let strict ← Driver.getNat j "strict"
+    let proj := fun (i : Nat) (row : List Int) => row[i]?.getD 0
+    match chMergeMulti (· + ·) 0 proj k ⟨rows⟩ strict with
+    | .ok cs => return Json.mkObj [("totals", toJson cs)]
+    | .error e => return Json.mkObj [("err", Driver.errJson e)]
   | _ => throw s!"unknown op {op}"
 
 end Driver.Sched
